@@ -90,4 +90,54 @@ theorem C06_fact_deadlines_respect_zero_timeout :
     Facts.deadlineArming = ["BigMessage.ReadAll", "Client.discard", "Client.handshake", "Client.peekPacket", "writeBuffersTo", "writeTo"] ∧
     Facts.deadlineArmingUnguarded = [] := by decide
 
+theorem C06_length_decode_stable (fuel : Nat) (a b : Bytes) (n : Nat) (r : Bytes)
+    (h : decodeVarintAux fuel a = some (n, r)) : decodeVarintAux fuel (a ++ b) = some (n, r ++ b) := by
+  induction fuel generalizing a n r with
+  | zero => simp [decodeVarintAux] at h
+  | succ f ih =>
+    cases a with
+    | nil => simp [decodeVarintAux] at h
+    | cons x xs =>
+      simp only [List.cons_append, decodeVarintAux] at h ⊢
+      by_cases hx : x < 128
+      · simp only [hx, if_true] at h ⊢; cases h; rfl
+      · simp only [hx, if_false] at h ⊢
+        cases hd : decodeVarintAux f xs with
+        | none => rw [hd] at h; simp at h
+        | some p =>
+          rw [hd] at h; simp only [Option.some.injEq, Prod.mk.injEq] at h
+          rw [ih xs p.1 p.2 (by rw [hd])]
+          simp only [Option.some.injEq, Prod.mk.injEq]
+          exact ⟨h.1, by rw [h.2]⟩
+
+/-- A packet that is complete in the bytes received so far is the same packet in the longer stream:
+header, body, and the rest extended by what arrived later — the frame boundary does not depend on
+how the stream was cut. -/
+theorem C06_frame_stable (a b : Bytes) (h : UInt8) (body rest : Bytes)
+    (hc : splitFrame a = .complete h body rest) : splitFrame (a ++ b) = .complete h body (rest ++ b) := by
+  cases a with
+  | nil => simp [splitFrame] at hc
+  | cons x xs =>
+    simp only [List.cons_append, splitFrame] at hc ⊢
+    cases hd : decodeVarint xs with
+    | none =>
+      rw [hd] at hc; simp only at hc
+      split at hc <;> simp at hc
+    | some p =>
+      obtain ⟨n, r'⟩ := p
+      rw [hd] at hc; simp only at hc
+      have hd' : decodeVarint (xs ++ b) = some (n, r' ++ b) := C06_length_decode_stable 4 xs b n r' hd
+      rw [hd']; simp only
+      by_cases hl : r'.length < n
+      · simp [hl] at hc
+      · simp only [hl, if_false, Frame.complete.injEq] at hc
+        have hl' : ¬ (r' ++ b).length < n := by simp only [List.length_append]; omega
+        simp only [hl', if_false, Frame.complete.injEq]
+        refine ⟨hc.1, ?_, ?_⟩
+        · rw [← hc.2.1, List.take_append_of_le_length (by omega)]
+        · rw [← hc.2.2, List.drop_append_of_le_length (by omega)]
+
+example : splitFrame [0x40, 0x02, 0x00, 0x01] = .complete 0x40 [0x00, 0x01] [] ∧
+    splitFrame ([0x40, 0x02, 0x00, 0x01] ++ [0xd0, 0x00]) = .complete 0x40 [0x00, 0x01] [0xd0, 0x00] := by decide
+
 end Model
